@@ -227,7 +227,10 @@ Strict(st, o, loose) ==
              IN IF o.op = "Subscribe" THEN {Out(OkRes, st2, Quiet(st2), <<>>)}
                 ELSE {Out(ResOf("ok", NoView, X, FALSE, 0, 0), st2, Quiet(st2), <<>>) : X \in QuerySets(st, o, loose)}
     [] o.op = "CancelSub" ->
-        IF ~st.subs[o.slot].active THEN {Out(ErrRes("other"), st, Quiet(st), <<>>)}   \* nothing to cancel (its creation failed)
+        IF ~st.subs[o.slot].used THEN {Out(ErrRes("other"), st, Quiet(st), <<>>)}     \* nothing to cancel (its creation failed)
+        \* cancelled before: cancelling again changes nothing, whatever it answers - in particular every other
+        \* subscription goes on receiving what it asked for
+        ELSE IF ~st.subs[o.slot].active THEN {Out(OkRes, st, Quiet(st), <<>>), Out(ErrRes("other"), st, Quiet(st), <<>>)}
         ELSE LET S == st.subs[o.slot]
                  st2 == [st EXCEPT !.subs[o.slot].active = FALSE, !.subs[o.slot].acc = <<>>]
                  f == [Quiet(st2) EXCEPT ![o.slot].items = S.acc]
